@@ -33,6 +33,9 @@ type Cfg struct {
 	Globals     bool
 	// hostile constructs (no reference semantics): wild mode
 	Wild bool
+	// PrintObjects allows objects (any number of fields) as print arguments and to_string/to_json
+	// receivers: their rendering is not documented, so only determinism / agreement can be asked.
+	PrintObjects bool
 
 	Off map[string]bool // gates: feature names switched off
 }
@@ -178,9 +181,14 @@ func (g *G) valueType() hs.Type {
 }
 
 // printable: display is fully specified (no multi-field objects: field order is C14's subject).
+var printObjects bool
+
 func printable(t hs.Type) bool {
 	switch t.K {
 	case hs.KObj:
+		if printObjects {
+			return true
+		}
 		return false // the rendering of objects is not documented; observe them through fields
 	case hs.KList, hs.KOpt:
 		return printable(*t.Elem)
